@@ -131,8 +131,9 @@ func optNames(mask int) string {
 }
 
 // checkBase: lossless and positions of the option-free stream.
-func tkCheckBase(kind, s string, toks []tkTok, v *tkVerdict) {
+func tkCheckBase(kind, s string, toks []tkTok, v *tkVerdict, path string) {
 	show := fmt.Sprintf("%s tokenizer on %q", kind, s)
+	tail := " [last functions entered: " + path + "]"
 	var sb strings.Builder
 	bad := ""
 	for i, t := range toks {
@@ -143,7 +144,7 @@ func tkCheckBase(kind, s string, toks []tkTok, v *tkVerdict) {
 		}
 	}
 	if sb.String() != s && bad == "" {
-		bad = fmt.Sprintf("%s: the token values concatenate to %q [%s]: a character is dropped, invented or replaced", show, sb.String(), renderToks(toks))
+		bad = fmt.Sprintf("%s: the token values concatenate to %q [%s]: a character is dropped, invented or replaced%s", show, sb.String(), renderToks(toks), tail)
 	}
 	if (len(toks) == 0 || toks[len(toks)-1].typ != "Eof") && bad == "" {
 		bad = fmt.Sprintf("%s: the stream does not end with the end-of-input token [%s]", show, renderToks(toks))
@@ -158,7 +159,7 @@ func tkCheckBase(kind, s string, toks []tkTok, v *tkVerdict) {
 	bad = ""
 	for i, t := range toks {
 		if off < len(lines) && (t.line != lines[off] || t.col != cols[off]) && bad == "" {
-			bad = fmt.Sprintf("%s: token %d %s(%q) reports %d:%d, its first character is at %d:%d in a forward scan", show, i, t.typ, t.val, t.line, t.col, lines[off], cols[off])
+			bad = fmt.Sprintf("%s: token %d %s(%q) reports %d:%d, its first character is at %d:%d in a forward scan%s", show, i, t.typ, t.val, t.line, t.col, lines[off], cols[off], tail)
 		}
 		off += len([]rune(t.val))
 	}
@@ -335,7 +336,7 @@ func (c *Ctx) tkRun(kind, part string) *tkVerdict {
 					v.note("lossless", show+" panics: "+r.why, "")
 					continue
 				}
-				tkCheckBase(kind, s, r.toks, v)
+				tkCheckBase(kind, s, r.toks, v, h.lastPath)
 				fresh[s] = renderToks(r.toks)
 				// options: bounded strings up to optLen and the pool
 				if inOptions && part == "options" {
